@@ -63,6 +63,8 @@ func main() {
 			fmt.Printf("violated %s at step %d: %s\n", v.Assert, v.Step, v.Msg)
 		}
 		fmt.Printf("steps %d classes %v\n", rep.Steps, sortedIntMap(rep.Classes))
+	case "shrink":
+		os.Exit(cmdShrink(os.Args[2:]))
 	case "race":
 		os.Exit(cmdRace(os.Args[2:]))
 	case "list":
@@ -148,6 +150,10 @@ func cmdChild(args []string) int {
 			rep.runner.Hist.Note = rep.Viol[0].Assert + ": " + rep.Viol[0].Msg
 			_ = rep.runner.Hist.Save(p)
 			rep.Replay = p
+			// shrink the witness (bounded effort); the full history is kept next to it
+			if minp := shrinkHistory(w, def, rep.runner.Hist, rep.Viol[0].Assert, strings.TrimSuffix(p, ".json")+".min.json", 45*time.Second); minp != "" {
+				rep.Replay = minp
+			}
 		}
 		b, _ := json.Marshal(rep)
 		out.Write(append(b, '\n'))
@@ -766,4 +772,96 @@ func raceRun(seed uint64, sum *Summary) (string, string) {
 		return wit, fmt.Sprintf("%d race reports with alliance frames, %d digest mismatches between instances running the same histories, %d panics", alliance, len(ro.Mismatches), len(ro.Panics))
 	}
 	return "", ""
+}
+
+// shrinkHistory: delta-debugging over the steps, keeping the violated assertion fixed; bounded by a wall
+// clock budget that only limits the effort (the unshrunk witness stays valid whatever happens here).
+func shrinkHistory(w *World, def *CheckDef, h *History, target, out string, budget time.Duration) string {
+	deadline := time.Now().Add(budget)
+	violates := func(steps []Step) bool {
+		hh := *h
+		hh.Steps = steps
+		rep := ReplayHistory(w, def, &hh, false)
+		return len(rep.Viol) > 0 && rep.Viol[0].Assert == target
+	}
+	steps := append([]Step{}, h.Steps...)
+	if !violates(steps) {
+		return ""
+	}
+	for chunk := len(steps) / 2; chunk >= 1 && time.Now().Before(deadline); {
+		removed := false
+		for i := 0; i+chunk <= len(steps) && time.Now().Before(deadline); {
+			cand := append(append([]Step{}, steps[:i]...), steps[i+chunk:]...)
+			if violates(cand) {
+				steps = cand
+				removed = true
+			} else {
+				i += chunk
+			}
+		}
+		if !removed || chunk > len(steps) {
+			chunk /= 2
+		}
+	}
+	hh := *h
+	hh.Steps = steps
+	hh.Note = "shrunk witness (" + strconv.Itoa(len(steps)) + " of " + strconv.Itoa(len(h.Steps)) + " steps) for " + target + "; full history: " + strings.TrimSuffix(out, ".min.json") + ".json"
+	if hh.Save(out) != nil {
+		return ""
+	}
+	return out
+}
+
+// cmdShrink: delta-debugging over the steps of a witness history, keeping the violated assertion fixed.
+// usage: vmon shrink <witness.json> [out.json]
+func cmdShrink(args []string) int {
+	h, err := LoadHistory(args[0])
+	if err != nil {
+		fmt.Println(err)
+		return 2
+	}
+	def := checkDefs()[h.Property]
+	if def == nil {
+		return 2
+	}
+	w := NewWorld()
+	violates := func(steps []Step) string {
+		hh := *h
+		hh.Steps = steps
+		rep := ReplayHistory(w, def, &hh, false)
+		if len(rep.Viol) > 0 {
+			return rep.Viol[0].Assert
+		}
+		return ""
+	}
+	target := violates(h.Steps)
+	if target == "" {
+		fmt.Println("the history does not violate its property on this tree")
+		return 0
+	}
+	steps := append([]Step{}, h.Steps...)
+	for chunk := len(steps) / 2; chunk >= 1; {
+		removed := false
+		for i := 0; i+chunk <= len(steps); {
+			cand := append(append([]Step{}, steps[:i]...), steps[i+chunk:]...)
+			if violates(cand) == target {
+				steps = cand
+				removed = true
+			} else {
+				i += chunk
+			}
+		}
+		if !removed || chunk > len(steps) {
+			chunk /= 2
+		}
+	}
+	h.Steps = steps
+	out := strings.TrimSuffix(args[0], ".json") + ".min.json"
+	if len(args) > 1 {
+		out = args[1]
+	}
+	h.Note = "shrunk witness for " + target
+	_ = h.Save(out)
+	fmt.Printf("shrunk to %d steps (assertion %s): %s\n", len(steps), target, out)
+	return 0
 }
